@@ -262,7 +262,9 @@ func (engine *Engine) DialAsyncTimeout(network, addr string, timeout time.Durati
 		})
 	} else if timeout > 0 {
 		c.mux.Lock()
-		if !c.closed {
+		// the connect may have completed already: its outcome is reported
+		// and the timeout is over, it must not close the connection later.
+		if !c.closed && atomic.LoadInt32(&called) == 0 {
 			c.wTimer = engine.AfterFunc(timeout, func() {
 				h(c, ErrDialTimeout)
 				_ = c.closeWithError(ErrDialTimeout)
